@@ -19,8 +19,62 @@ func firstDiagRaw(stderr string) string {
 	return d[0].Raw
 }
 
+// c13Repl: an interactive session is a sequence of executions in one process.  The same
+// self-contained line sent several times within a session (with other lines in between) must be
+// answered identically each time, and the whole transcript must repeat across fresh processes.
+func c13Repl(c *Ctx, cs *Case) {
+	lines := strings.Split(cs.Src, "\n")
+	var first []string
+	var firstMerged string
+	for rep := 0; rep < c.N(2, 5); rep++ {
+		resp, o := c20Session(c, lines, true)
+		if o.TimedOut {
+			c.Inconclusive("CLI watchdog")
+			return
+		}
+		if o.Exit == 2 {
+			c.Violate(Violation{Why: "interactive session died abnormally", Observed: trunc(o.Merged, 500), Signature: "cli-abnormal: " + firstPanicLine(o.Merged)})
+			return
+		}
+		if rep == 0 {
+			first, firstMerged = resp, o.Merged
+			if len(resp) != len(lines)+1 {
+				c.Count("repl_sessions_unsplittable", 1)
+				return
+			}
+			var at []int
+			for i, l := range lines {
+				if l == cs.X["line"] {
+					at = append(at, i)
+				}
+			}
+			for _, i := range at[1:] {
+				if resp[i] != resp[at[0]] {
+					c.Violate(Violation{Why: fmt.Sprintf("the same self-contained line %q is answered differently the %d-th time it is executed in one process", trunc(cs.X["line"], 80), i+1),
+						Expected: trunc(resp[at[0]], 200), Observed: trunc(resp[i], 200) + "\n--- transcript ---\n" + trunc(o.Merged, 500), Signature: "repl-repetition-differs"})
+					return
+				}
+			}
+			c.Count("repl_line_repetitions", int64(len(at)))
+			continue
+		}
+		if o.Merged != firstMerged {
+			c.Violate(Violation{Why: fmt.Sprintf("execution %d of the same interactive session differs from execution 0", rep), Expected: trunc(firstMerged, 400), Observed: trunc(o.Merged, 400), Signature: "nondeterministic:repl-session"})
+			return
+		}
+	}
+	_ = first
+	c.Count("repl_sessions", 1)
+	c.Nontrivial(cs.Src)
+	c.Sample(cs.Gen, map[string]interface{}{"lines": lines, "transcript": trunc(firstMerged, 300)})
+}
+
 func c13Judge(c *Ctx, cs *Case) {
 	c.Begin(cs)
+	if cs.Mode == "repl" {
+		c13Repl(c, cs)
+		return
+	}
 	R := c.N(8, 40)
 	RP := c.N(4, 15)
 	var base *Obs
@@ -247,6 +301,64 @@ func c13Run(c *Ctx) {
 		}
 		c13Judge(c, &Case{Gen: "map-order-sensitive", Src: src, X: map[string]string{"nontrivial": "1", "probe_order": strings.Join(once, ",")}})
 	}
+	// 2d. texts with several lexical / syntax errors on different lines: which diagnostic comes first
+	{
+		r = c.Rand("multi-error")
+		bad := []string{"@", "#", "$", "\u201chi\u201d", "a \u200c b", "`", "?", "\\", "1 +;", ")", Print("1") + " }", K["var"] + " ;", "\"open", "x = = 2;", "12abc\u09e7 $"}
+		okl := []string{Print("1"), Var("q", "2"), "// note", "", Print(`"s"`), "q = 3;"}
+		n = c.N(120, 4000)
+		for k := 0; k < n; k++ {
+			var ls []string
+			nb := 2 + r.Intn(4)
+			for len(ls) < nb*2 {
+				if len(ls)%2 == 0 {
+					ls = append(ls, okl[r.Intn(len(okl))])
+				} else {
+					ls = append(ls, bad[r.Intn(len(bad))])
+				}
+			}
+			if !c.Mine() {
+				continue
+			}
+			cs := &Case{Gen: "several-static-errors", Src: strings.Join(ls, "\n") + "\n", X: nt}
+			if k%2 == 0 {
+				cs.Mode = "cli"
+			}
+			c13Judge(c, cs)
+		}
+	}
+	// 2c. interactive sessions: a self-contained line repeated with other lines (declarations, assignments
+	// to built-in names, every kind of error) in between
+	{
+		pool := c20Pool()
+		extra := []string{B["len"] + " = 5;", B["abs"] + " = nil;", B["max"] + " = " + B["min"] + ";", B["round"] + " = 1; " + B["len"] + " = 2;", Var("v", "1") + " v = 2;", Fun("f", "", " "+Ret("1")+" "), "f = nil;"}
+		var selfs []string
+		for _, l := range pool {
+			if l.self && l.kind != "long" && l.kind != "empty" && l.kind != "declaration" {
+				selfs = append(selfs, l.text)
+			}
+		}
+		r = c.Rand("repl")
+		n = c.N(150, 6000)
+		for k := 0; k < n; k++ {
+			L := selfs[r.Intn(len(selfs))]
+			lines := []string{L}
+			for rep := 0; rep < 2; rep++ {
+				for j := 0; j <= r.Intn(3); j++ {
+					if r.Intn(3) == 0 {
+						lines = append(lines, extra[r.Intn(len(extra))])
+					} else if p := pool[r.Intn(len(pool))]; p.kind != "long" {
+						lines = append(lines, p.text)
+					}
+				}
+				lines = append(lines, L)
+			}
+			if !c.Mine() {
+				continue
+			}
+			c13Judge(c, &Case{Gen: "repl-repetition", Mode: "repl", Src: strings.Join(lines, "\n"), X: map[string]string{"line": L}})
+		}
+	}
 	// 3. programs sampled from the general generator (with faults)
 	r = c.Rand("general")
 	n = c.N(1500, 20000)
@@ -268,10 +380,10 @@ func c13Run(c *Ctx) {
 func init() {
 	register(&CheckDef{
 		ID:   "C13",
-		Rule: "programs: the shipped examples (ক্লক statement removed, stdin supplied); seeded programs biased to what could depend on hash-iteration order or addresses (object literals of 2-6 keys from a pool with case-colliding and prefix-related names whose initialisers are tagged probes, nested literals, repeated key/value listings, listings used as data and in control flow, diagnostics rendering an object-literal expression, two failing initialisers, printing functions/built-ins/containers, failing after map iteration); programs from the general random generator. Each program is executed 8 (quick) / 40 (thorough) times in one process and (a third / a tenth of them) 4 / 15 times as fresh processes with varied environment (TZ, GOMAXPROCS, environment size, script name); stdout bytes, exit status and the first diagnostic (verbatim) must be identical; for literals with tagged probes (including ones where one name is written twice) the probes of the names written once must additionally appear once each in source order. Go randomises every map iteration, so the repetition count plays the role of the schedule. Non-trivial = distinct program with an object literal / listing over >= 2 properties or a printed function value.",
+		Rule: "programs: the shipped examples (ক্লক statement removed, stdin supplied); seeded programs biased to what could depend on hash-iteration order or addresses (object literals of 2-6 keys from a pool with case-colliding and prefix-related names whose initialisers are tagged probes, nested literals, repeated key/value listings, listings used as data and in control flow, diagnostics rendering an object-literal expression, two failing initialisers, printing functions/built-ins/containers, failing after map iteration); programs from the general random generator. Each program is executed 8 (quick) / 40 (thorough) times in one process and (a third / a tenth of them) 4 / 15 times as fresh processes with varied environment (TZ, GOMAXPROCS, environment size, script name); stdout bytes, exit status and the first diagnostic (verbatim) must be identical; for literals with tagged probes (including ones where one name is written twice) the probes of the names written once must additionally appear once each in source order. Interactive sessions through the binary (a self-contained line sent three times with declarations, assignments to built-in names and every kind of failing line in between) must answer that line identically each time and repeat byte for byte across processes. Go randomises every map iteration, so the repetition count plays the role of the schedule. Non-trivial = distinct program with an object literal / listing over >= 2 properties or a printed function value.",
 		Assumptions: []string{"a k-entry map iteration repeats its order with probability about 1/k per execution; a 3-entry dependency escapes 8 comparisons with probability < 1e-3 and 40 with < 1e-18"},
 		Run:         c13Run,
 		Judge:       c13Judge,
-		MustCount:   func(c *Ctx) []string { return []string{"gen:shipped-examples", "gen:map-order-sensitive", "gen:general-programs", "inprocess_executions", "process_executions", "programs_clean", "programs_failing", "initialiser_order_checked"} },
+		MustCount:   func(c *Ctx) []string { return []string{"gen:shipped-examples", "gen:map-order-sensitive", "gen:general-programs", "inprocess_executions", "process_executions", "programs_clean", "programs_failing", "initialiser_order_checked", "gen:several-static-errors", "repl_sessions", "repl_line_repetitions"} },
 	})
 }
